@@ -37,6 +37,7 @@ type profile struct {
 	timers     bool
 	goStmts    bool
 	strict     bool // refuse select / send statements
+	recvObj    bool // report the method receiver as the step's object (vsched.YO)
 }
 
 func rx(ps ...string) []*regexp.Regexp {
@@ -52,6 +53,14 @@ var profiles = map[string]profile{
 		wrap:    rx(`^atomic\.`, `\.(buffer|systemBuffer)\.(Push|Pop)$`, `\.handler\.HandleEnvelop$`),
 		goStmts: true,
 		strict:  true,
+	},
+	// the whole actor runtime under the controlled scheduler: same yield points as "mailbox", each step
+	// reporting which mailbox it operates on
+	"mailbox-obj": {
+		wrap:    rx(`^atomic\.`, `\.(buffer|systemBuffer)\.(Push|Pop)$`, `\.handler\.HandleEnvelop$`),
+		goStmts: true,
+		strict:  true,
+		recvObj: true,
 	},
 	"future": {
 		// future.go: CAS/Load of closed, closer(), one Tell per forwarder; context.go (func ask): NewFuture, appendFuture
@@ -90,12 +99,16 @@ func lit(s string) ast.Expr          { return &ast.BasicLit{Kind: token.STRING, 
 type rewriter struct {
 	p     profile
 	fn    string
+	recv  string
 	count int
 	fail  []string
 }
 
 func (r *rewriter) yWrap(label string, e ast.Expr) ast.Expr {
 	r.count++
+	if r.p.recvObj && r.recv != "" {
+		return &ast.CallExpr{Fun: sel("vsched", "YO"), Args: []ast.Expr{lit(label), ast.NewIdent(r.recv), e}}
+	}
 	return &ast.CallExpr{Fun: sel("vsched", "Y"), Args: []ast.Expr{lit(label), e}}
 }
 
@@ -305,6 +318,10 @@ func main() {
 		switch x := d.(type) {
 		case *ast.FuncDecl:
 			r.fn = x.Name.Name
+			r.recv = ""
+			if x.Recv != nil && len(x.Recv.List) == 1 && len(x.Recv.List[0].Names) == 1 {
+				r.recv = x.Recv.List[0].Names[0].Name
+			}
 			r.block(x.Body)
 		case *ast.GenDecl:
 			if p.timers {
